@@ -1,0 +1,16 @@
+//go:build verif
+
+package column
+
+import "sync/atomic"
+
+// VerifHook, when set, is called at the instrumentation points of the verification
+// build (tag "verif"). It receives the name of the point, the collection and the chunk.
+var VerifHook atomic.Pointer[func(point string, c *Collection, chunk uint32)]
+
+// verifPoint invokes the verification hook, if any is installed.
+func verifPoint(point string, c *Collection, chunk uint32) {
+	if fn := VerifHook.Load(); fn != nil {
+		(*fn)(point, c, chunk)
+	}
+}
